@@ -6,7 +6,7 @@ from __future__ import annotations
 import ast
 import re
 
-from ..astutil import call_attr, call_name, calls_in, guard_facts, unparse, walk_local, text_facts
+from ..astutil import call_attr, call_name, calls_in, dewalrus, guard_facts, unparse, walk_local, text_facts
 from ..cfg import CFG
 from ..report import Finding, Report
 from ..srcindex import AnalysisError, Index, raw_funcs
@@ -248,7 +248,7 @@ def check_predicate(idx: Index, rep: Report) -> None:
     none_rets = [n for n in rets if isinstance(n.value, ast.Constant) and n.value.value is None]
     facts_all = [text_facts(f.node, n) for n in none_rets]
     no_iface = any(any(re.fullmatch(r"effect_interfaces|len\(effect_interfaces\) == 0", t) and p is False or re.fullmatch(r"not effect_interfaces", t) and p for t, p in fs) for fs in facts_all)
-    inner_none = any(any(re.fullmatch(r"\w+ is None", t) and p for t, p in fs) for fs in facts_all)
+    inner_none = any(any(re.fullmatch(r"\w+ is None", dewalrus(t)) and p for t, p in fs) for fs in facts_all)
     if no_iface:
         r.ok(f.fq + ":no-interface", f"{f.loc} no MemoryEffect trait -> None (unknown)")
     else:
@@ -357,8 +357,24 @@ def check_liveness(idx: Index, rep: Report) -> None:
             r.ok(f.fq + ":regions", f"{f.loc} nested regions propagated on every call")
     sets = [c for c in calls_in(f.node) if unparse(c.func) == "self.set_live"]
     conds = []
+    from ..astutil import parent_map as _pmap
+
+    pm0 = _pmap(f.node)
     for c in sets:
-        conds.append(sorted((unparse(t), p) for t, p in guard_facts(f.node, c) if "is_live(op)" not in unparse(t) or "use" in unparse(t)))
+        facts_c = [(unparse(t), p) for t, p in guard_facts(f.node, c) if "is_live(op)" not in unparse(t) or "use" in unparse(t)]
+        # a call inside `for result in op.results: for use in result.uses: if self.is_live(use.operation):` happens iff
+        # some user is live: the same condition as the any(...) form
+        encl = []
+        n_ = c
+        while id(n_) in pm0:
+            n_ = pm0[id(n_)]
+            if isinstance(n_, ast.For):
+                encl.append((unparse(n_.target), unparse(n_.iter)))
+        if len(encl) == 2 and encl[1][1] == f"{op}.results" and encl[0][1] == f"{encl[1][0]}.uses":
+            live_t = f"self.is_live({encl[0][0]}.operation)"
+            if (live_t, True) in facts_c:
+                facts_c = [(t_, p_) for t_, p_ in facts_c if t_ != live_t] + [(f"any((self.is_live(use.operation) for result in {op}.results for use in result.uses))", True)]
+        conds.append(sorted(facts_c))
     want1 = [(f"would_be_trivially_dead({op})", False)]
     want2_pat = rf"any\(\(self\.is_live\(use\.operation\) for result in {op}\.results for use in result\.uses\)\)"
 
@@ -560,7 +576,7 @@ def check_recursive_effects(idx: Index, rep: Report) -> None:
             r.ok(inst, f"{f.loc} every nested op contributes its effects")
         # unknown effects propagate
         nones = [rt for rt in walk_local(w) if isinstance(rt, ast.Return) and (rt.value is None or (isinstance(rt.value, ast.Constant) and rt.value.value is None))]
-        okn = any(any(re.fullmatch(r"\w+ is None", t_) and p_ for t_, p_ in text_facts(f.node, rt)) for rt in nones)
+        okn = any(any(re.fullmatch(r"\w+ is None", dewalrus(t_)) and p_ for t_, p_ in text_facts(f.node, rt)) for rt in nones)
         if okn:
             r.ok(inst + ":unknown", None)
         else:
